@@ -1,0 +1,7 @@
+//go:build !verif
+
+package server
+
+func verifPoint(_ int) {}
+
+func verifManualClock() bool { return false }
